@@ -57,7 +57,7 @@ verus! {
 //@include-trusted env/dist_ops.vs
 //@include env/vsum_impls.vs
 //@include env/cache_spec.vs
-//@include env/cache_lemmas.vs
+//@include-proved env/cache_lemmas.vs
 
 pub mod tr {
 use super::*;
